@@ -29,6 +29,23 @@ def run_check(prop, tier, seed):
             if g in meta.get('aborts', {}) or '*' in meta.get('aborts', {}):
                 a = meta['aborts'].get(g) or meta['aborts']['*']
                 broken.append(dict(kind='translation', what='Gen.' + g, detail=a.get('msg', '')[:500]))
+        if spec.get('eqv'):
+            rc_, out_, err_ = core.sh([core.PY, os.path.join(VERIF, 'tools', 'trace', 'equiv.py'), '--out', core.LEAN])
+            try:
+                summ = json.load(open(os.path.join(core.LEAN, 'QscProofs', 'Eqv', 'summary.json')))
+                expd = json.load(open(os.path.join(VERIF, 'Spec', 'eqv_expected.json')))['modules']
+            except Exception as ex:
+                summ, expd = {}, {}
+                broken.append(dict(kind='translation', what='equivariance generator', detail=(err_ or out_ or str(ex))[-600:]))
+            for m_ in spec['eqv']:
+                got = summ.get(m_, {})
+                for d_ in expd.get(m_, {}).get('proved', []):
+                    if d_ not in got.get('proved', {}):
+                        why = got.get('no_law', {}).get(d_, 'definition no longer generated')
+                        broken.append(dict(kind='equivariance-law-lost', what='Gen.%s.%s' % (m_, d_), detail=str(why)[:300]))
+                for d_, why in got.get('spec_mismatch', {}).items():
+                    broken.append(dict(kind='equivariance-weight-differs-from-spec', what='Gen.%s.%s' % (m_, d_), detail=str(why)[:300]))
+            ev_extra['equivariance'] = {m_: dict(proved=len(summ.get(m_, {}).get('proved', {})), no_law=sorted(summ.get(m_, {}).get('no_law', {}))) for m_ in spec['eqv']}
         targets = ['QscModel'] + spec.get('lean', [])
         ok, failed, log = core.build(targets)
         model_failed = [f for f in failed if f.startswith('QscModel') or f == '<build>']
@@ -110,7 +127,7 @@ def run_check(prop, tier, seed):
                                       unchecked_definitions=corr.get('unchecked', []), max_rel=corr.get('max_rel')),
                   oracle=oracle_stats, generated_modules=spec.get('gen', []), source_hashes=meta.get('hashes', {}),
                   translation_aborts=meta.get('aborts', {}), broken_obligations=broken, partial_clauses=spec.get('partial', []),
-                  known_findings_reproduced=known_lines),
+                  known_findings_reproduced=known_lines, **ev_extra),
               assumptions=core.TRUSTED_BASE + spec.get('partial', []))
     core.write_evidence(prop, ev)
     for l in known_lines:
